@@ -195,6 +195,9 @@ pub fn c06(ctx: &Ctx) -> PropResult {
         programs.push("PROCEDURE f() {\nRETURN 1\n}\nDISPLAY(f())\nPROCEDURE f() {\nRETURN 2\n}\nDISPLAY(f())\nPROCEDURE f() {\nRETURN 3\n}\nDISPLAY(f())\n".to_string());
         programs.push("x <- 1\nx <- x + 1\nl <- [x, x]\nl <- l + l\nDISPLAY(l)\nPROCEDURE g(a) {\nRETURN a\n}\nPROCEDURE g(a) {\nRETURN a + 1\n}\nDISPLAY(g(x))\n".to_string());
     }
+    // (appended) a binary minus in front of a unary minus, a comparison in front of a unary minus: with and without blanks
+    programs.push("a <- 7\nb <- 9\nDISPLAY(a - -2)\nDISPLAY(b - -1 == 10)\nDISPLAY(0 - - -1)\nDISPLAY(a < -b)\nDISPLAY(a > -b)\nDISPLAY(a * -b)\nDISPLAY(a == -b)\nDISPLAY(NOT -a)\nc <- -a\nc <- - -a\nDISPLAY(c)\n".to_string());
+    programs.push("l <- [3, 4]\nDISPLAY(l[1] - -l[2])\nDISPLAY(l[1]-1)\nDISPLAY(LENGTH(l) -1)\nDISPLAY((l[1]) - -1)\n".to_string());
     let per = if ctx.quick() { 6 } else { 20 };
     let mut cases = vec![];
     for p in &programs {
@@ -336,7 +339,7 @@ pub fn c06(ctx: &Ctx) -> PropResult {
     let stats = run_cases(&ctx.driver, cases, &oracle, &no_known, ctx.threads);
     PropResult {
         stats,
-        rule: format!("{} programs (the repository's tests and examples, generated programs) -> token stream -> {} random admissible renderings each: at every token boundary one of nothing (only next to a bracket or comma), blanks, tab, CR, backslash-newline, and - where the previous token cannot end a statement - newline, CRLF, blank lines or a // comment with non-ASCII text; every terminator as newline, CRLF, comment+newline or ';'; every keyword independently upper or lower case; leading and trailing blank/comment material; implementation-only oracle: same tokens (kinds, literals, text) and same behaviour as the canonical layout; the variant is also run through the model; converse clause: for every token kind a newline (or comment+newline) after it yields a terminator exactly for the kinds of the extracted ender set; the fourth extreme layout leaves out every separator the lexical grammar does not need (a number directly before a word, words next to operators); terminators made of a continuation and comment-only lines; names that begin with a keyword at line starts; fifteen constructs as the very last thing of the input ending in nothing / blank / tab / CR / comment / ; / continuation", programs.len(), per),
+        rule: format!("{} programs (the repository's tests and examples, generated programs) -> token stream -> {} random admissible renderings each: at every token boundary one of nothing (only next to a bracket or comma), blanks, tab, CR, backslash-newline, and - where the previous token cannot end a statement - newline, CRLF, blank lines or a // comment with non-ASCII text; every terminator as newline, CRLF, comment+newline or ';'; every keyword independently upper or lower case; leading and trailing blank/comment material; implementation-only oracle: same tokens (kinds, literals, text) and same behaviour as the canonical layout; the variant is also run through the model; converse clause: for every token kind a newline (or comment+newline) after it yields a terminator exactly for the kinds of the extracted ender set; the fourth extreme layout leaves out every separator the lexical grammar does not need (a number directly before a word, words next to operators); terminators made of a continuation and comment-only lines; names that begin with a keyword at line starts; fifteen constructs as the very last thing of the input ending in nothing / blank / tab / CR / comment / ; / continuation; a binary minus or a comparison in front of a unary minus", programs.len(), per),
         exhaustive: false,
         notes: vec![],
     }
@@ -722,6 +725,11 @@ pub fn c09(ctx: &Ctx) -> PropResult {
             cases.push(Case::new(Kind::Parse, m).tag("unbalanced-mutation").aux("reject".into()));
         }
     }
+    // RETURN followed by every kind of token an expression can start with (appended: earlier cases unchanged)
+    for p in crate::props6::return_value_starts() {
+        cases.push(Case::new(Kind::Parse, p.clone()).tag("return-value-starts"));
+        cases.push(Case::new(Kind::Run, p).tag("return-value-starts-run"));
+    }
     let oracle = |case: &Case, out: &Outcome| -> Result<bool, String> {
         let rec = &out.impl_rec;
         if let Some(m) = rec.strip_prefix("panic ") {
@@ -751,7 +759,7 @@ pub fn c09(ctx: &Ctx) -> PropResult {
     let stats = run_cases(&ctx.driver, cases, &oracle, &no_known, ctx.threads);
     PropResult {
         stats,
-        rule: "random derivations of the documented statement grammar (expression statements, IF / ELSE IF / ELSE, REPEAT TIMES, REPEAT UNTIL, FOR EACH, PROCEDURE and EXPORT PROCEDURE with 0-3 parameters, RETURN valued and bare, BREAK / CONTINUE inside loops, the three IMPORT forms, nested bare blocks; depth <= 3, <= 3 statements per block) with an independent terminator choice per statement (newline, ';', '; ', blank line, directly before '}' or the end of input) and block-opening layout; the documented forms of the property's text verbatim; rejection: 31 fixed misplaced / unbalanced / missing-operand programs and every random single bracket deletion / insertion in a valid derivation that a bracket counter proves unbalanced; implementation-only oracle: accepted / rejected with >= 1 diagnostic; syntax trees and diagnostic labels compared with the model; nesting depths 1 .. 200 of every block kind and expression kind, ELSE IF chains and flat programs of 1 .. 300 parts (accepted and run); names that begin with a keyword; brace-less branches followed by ELSE on the same line, brace-less bodies at the end of the input (as the model says)".into(),
+        rule: "random derivations of the documented statement grammar (expression statements, IF / ELSE IF / ELSE, REPEAT TIMES, REPEAT UNTIL, FOR EACH, PROCEDURE and EXPORT PROCEDURE with 0-3 parameters, RETURN valued and bare, BREAK / CONTINUE inside loops, the three IMPORT forms, nested bare blocks; depth <= 3, <= 3 statements per block) with an independent terminator choice per statement (newline, ';', '; ', blank line, directly before '}' or the end of input) and block-opening layout; the documented forms of the property's text verbatim; rejection: 31 fixed misplaced / unbalanced / missing-operand programs and every random single bracket deletion / insertion in a valid derivation that a bracket counter proves unbalanced; implementation-only oracle: accepted / rejected with >= 1 diagnostic; syntax trees and diagnostic labels compared with the model; nesting depths 1 .. 200 of every block kind and expression kind, ELSE IF chains and flat programs of 1 .. 300 parts (accepted and run); names that begin with a keyword; brace-less branches followed by ELSE on the same line, brace-less bodies at the end of the input (as the model says); RETURN followed by every kind of expression start".into(),
         exhaustive: false,
         notes: vec![],
     }
@@ -918,6 +926,28 @@ pub fn c11(ctx: &Ctx) -> PropResult {
         let noise_i = g.rng.below(noise.len());
         cases.push(run_case(format!("{}{}", noise[noise_i], p), "random-program"));
     }
+    // (appended) the opening brace on the line after a header whose value is wrong (a layout the grammar rejects: a
+    // syntax error, never a runtime diagnostic with a label on the line break); modules that fail to lex or parse,
+    // imported from a text with other content in front (the label stays on the importer's module name)
+    for src in ["FOR EACH q IN 5\n{\n}\n", "FOR EACH q IN 5 {\n}\n", "REPEAT \"x\" TIMES\n{\n}\n", "REPEAT UNTIL (1 / 0)\n{\n}\n", "IF (1 + NULL)\n{\n}\n", "FOR EACH q IN one(NULL)\n\n{\nDISPLAY(q)\n}\n", "FOR EACH q\nIN 5 {\n}\n"] {
+        for ni in [0usize, 1, 6] {
+            cases.push(run_case(format!("{}PROCEDURE one(p) {{\n RETURN p\n}}\nDISPLAY(\"éarlier output\")\n{src}", noise[ni]), "brace-on-next-line"));
+        }
+    }
+    for (k, module) in ["// módule 語\nx <- (1 + \n", "y <- \"unterminated\n", "// a long first line so that offsets differ ............................................\n\n\nIF (x { }\n", "x = 1\n", "EXPORT PROCEDURE p( {\n}\n", ""].iter().enumerate() {
+        let name = format!("lib/front{k}.ap");
+        let full = mod_dir.join(&name);
+        std::fs::write(&full, module).unwrap();
+        for ni in [0usize, 1, 6] {
+            for imp in [format!("IMPORT MOD \"{name}\""), format!("IMPORT \"p\" FROM MOD \"{name}\""), format!("IMPORT MOD   \"{name}\"   // tráiling")] {
+                let main = format!("{}DISPLAY(\"éarlier output\")\n{imp}\nDISPLAY(\"after\")\n", noise[ni]);
+                let mut c = run_case(main, "module-front-end-error");
+                c.path = mod_dir.join("main.ap").to_string_lossy().to_string();
+                c.files = vec![(full.to_string_lossy().to_string(), Some(module.to_string()))];
+                cases.push(c);
+            }
+        }
+    }
     let oracle = |case: &Case, out: &Outcome| -> Result<bool, String> {
         let Some(r) = out.impl_run.as_ref() else { return Ok(false) };
         let src = &case.src;
@@ -982,7 +1012,7 @@ pub fn c11(ctx: &Ctx) -> PropResult {
     let stats = run_cases(&ctx.driver, cases, &oracle, &no_known, ctx.threads);
     PropResult {
         stats,
-        rule: "22 failing expressions (every runtime-error kind: arithmetic and type errors, division / MOD by zero, undefined variable / procedure, index out of range / of wrong type / on a non-indexable, wrong argument count, argument casts, INSERT / REMOVE range) x 10 expression / statement contexts (nested in arithmetic, conditions, list literals, call arguments, loops, recursion depth 3), loop-header and indexed-assignment errors, 17 lexical / syntactic errors, random programs; every source prefixed with random noise (comments with 2-, 3- and 4-byte characters, blank lines, strings containing newlines); implementation-only oracle: every label inside the source on character boundaries, the labelled text is the construct the property names for that error kind, earlier output intact; error spans compared with the model; non-trivial = a diagnostic was produced; every library procedure x argument position x twelve values (some written with commas), the other arguments type-correct, plain and written with commas; two- and three-level set targets and reads with the failing index at each level".into(),
+        rule: "22 failing expressions (every runtime-error kind: arithmetic and type errors, division / MOD by zero, undefined variable / procedure, index out of range / of wrong type / on a non-indexable, wrong argument count, argument casts, INSERT / REMOVE range) x 10 expression / statement contexts (nested in arithmetic, conditions, list literals, call arguments, loops, recursion depth 3), loop-header and indexed-assignment errors, 17 lexical / syntactic errors, random programs; every source prefixed with random noise (comments with 2-, 3- and 4-byte characters, blank lines, strings containing newlines); implementation-only oracle: every label inside the source on character boundaries, the labelled text is the construct the property names for that error kind, earlier output intact; error spans compared with the model; non-trivial = a diagnostic was produced; every library procedure x argument position x twelve values (some written with commas), the other arguments type-correct, plain and written with commas; two- and three-level set targets and reads with the failing index at each level; the opening brace on the line after a header with a wrong value; modules that fail to lex or parse under three import spellings".into(),
         exhaustive: false,
         notes: vec![],
     }
